@@ -25,6 +25,10 @@ pub struct Case {
     pub conv: Conversation,
     /// if set: command index whose program has a shape-contradicting row at (step, row)
     pub contradiction: Option<(usize, usize, usize, Contradiction)>,
+    /// the last row of the first program is left incomplete and the resultset is ended with
+    /// finish_error: either that is refused, or the reply is the complete rows followed by ERR
+    #[serde(default)]
+    pub abandoned_row: bool,
 }
 
 
@@ -169,12 +173,76 @@ impl Prop for C03 {
         conv.forget_on_refusal = contradiction.is_some();
         let (bytes, ends, _) = client_stream(&conv);
         conv.sched = gen_schedule(g, bytes.len(), &ends);
-        Case { conv, contradiction }
+        Case { conv, contradiction, abandoned_row: false }
+    }
+    fn fixed(&self, tier: Tier) -> Vec<Case> {
+        // a row given up half-way (error while producing its cells) -> finish_error; incl. rows
+        // whose first cell already fills a maximal wire packet
+        let mut v = Vec::new();
+        let lens: &[usize] = match tier {
+            Tier::Quick => &[3, 300, MAX_PAYLOAD - 4, MAX_PAYLOAD + 70],
+            Tier::Thorough => &[0, 3, 300, 70_000, MAX_PAYLOAD - 5, MAX_PAYLOAD - 4, MAX_PAYLOAD - 3, MAX_PAYLOAD + 70, 2 * MAX_PAYLOAD],
+        };
+        for (i, &len) in lens.iter().enumerate() {
+            for bin in [false, true] {
+                let cols = vec![ColSpec::simple("a", T_LONG_BLOB, 0), ColSpec::simple("b", T_LONG_BLOB, 0), ColSpec::simple("c", T_LONG, 0)];
+                let full = RowProg { cells: vec![Val::plain(Base::Slice(b"x".to_vec())), Val::plain(Base::Slice(b"y".to_vec())), Val::plain(Base::I32(1))], form: RowForm::WriteRow };
+                let partial = RowProg { cells: vec![Val::plain(Base::BigBytes { seed: i as u32, len })], form: RowForm::ColsOpen };
+                let prog = Program { steps: vec![Step::Set { cols, rows: vec![full, partial], end: SetEnd::FinishError { kind: 1105, msg: b"gave up".to_vec() } }] };
+                let mut conv = if bin {
+                    Conversation::new(
+                        vec![Cmd::Prepare { text: Blob::text("p") }, Cmd::Execute { id: 1, params: vec![], send_types: false, flags: 0, iterations: 1 }, Cmd::Ping],
+                        vec![Action::Prepare(PrepProg::Reply { id: 1, params: vec![], cols: vec![] }), Action::Result(prog)],
+                    )
+                } else {
+                    Conversation::new(vec![Cmd::Query { text: Blob::text("q") }, Cmd::Ping], vec![Action::Result(prog)])
+                };
+                conv.forget_on_refusal = true;
+                v.push(Case { conv, contradiction: None, abandoned_row: true });
+            }
+        }
+        v
     }
     fn exec(&self, case: &Case) -> Exec {
         let mut ex = Exec::default();
         let c = &case.conv;
         let o = run_with(c, None, false);
+        if case.abandoned_row {
+            ex.nontrivial = true;
+            ex.class("row-abandoned-with-finish_error");
+            let kinds: Vec<ReplyKind> = c.cmds.iter().map(|sc| sc.cmd.reply_kind()).collect();
+            let d = decode_output(&o.out, &kinds);
+            if let RunResult::Panic(p) = &o.result {
+                ex.fail(format!("c03-panic|{}", panic_signature(p)), format!("panic when a row is abandoned with finish_error: {}", o.result.brief()));
+                return ex;
+            }
+            let refused = o.calls.iter().any(|k| !k.ok);
+            if refused {
+                if !o.result.is_err() {
+                    ex.fail("c03-abandoned-row-result", format!("finish_error failed but run_on returned {}", o.result.brief()));
+                }
+                if let Some(p) = &d.problem {
+                    if !d.truncated_only {
+                        ex.fail("c03-abandoned-row-garbage", format!("after a refused finish_error the bytes already sent are malformed: {}", p));
+                    }
+                }
+            } else {
+                // accepted: exactly one conformant response (the complete row, then ERR), client command-ready
+                if let Some(p) = &d.problem {
+                    ex.fail("c03-abandoned-row-garbage", format!("finish_error reported success, but the client cannot decode the response: {}", p));
+                    return ex;
+                }
+                let idx = c.cmds.len() - 2;
+                match d.replies.get(idx).map(|r| &r.units[..]) {
+                    Some([Unit::Set { rows, end_err: Some(_), .. }]) if rows.len() == 1 => {}
+                    other => ex.fail("c03-abandoned-row-reply", format!("expected the one complete row followed by ERR, got {:?}", other.map(|u| u.iter().map(|x| x.brief()).collect::<Vec<_>>()))),
+                }
+                if d.stray_msgs != 0 {
+                    ex.fail("c03-stray-output", format!("{} stray packets after the last expected reply", d.stray_msgs));
+                }
+            }
+            return ex;
+        }
         let exps = expectations(c);
         let kinds: Vec<ReplyKind> = c.cmds.iter().map(|sc| sc.cmd.reply_kind()).collect();
         // classification
